@@ -113,13 +113,18 @@ class PathCtx:
         self.outputs = {}
         self.proved = 0
         self.reached = 0
+        self.reach_unknown = 0
         self.note = None
 
     # reachability twin: `assert False` at the assertion point must be violated (pc satisfiable)
     def reach(self):
         r = self.eng._check()
+        if r == z3.unknown:      # e.g. a timeout under load: ask again with a fresh solver and the verification budget
+            r = z3.sat if self.eng.path_model() is not None else z3.unknown
         if r == z3.sat:
             self.reached += 1
+        elif r == z3.unknown:
+            self.reach_unknown += 1
         return r == z3.sat
 
     def observe(self, **kw):
@@ -234,7 +239,14 @@ def run_job(args):
     t0 = time.time()
     opts = dict(check.engine_opts)
     eng = Engine(seed=seed, **opts)
-    res = dict(job=job, findings=[], samples=[], functions=[], validated=0, mismatches=[], reached=0, proved=0,
+    try:
+        eng.xcheck_every = int(os.environ.get('VERIF_XCHECK', '') or (getattr(check, 'xcheck_every', {}).get(tier, 97 if tier == 'quick' else 23)))
+    except ValueError:
+        eng.xcheck_every = 0
+    eng.xcheck_max = 1 if tier == 'quick' else 40
+    if tier == 'quick' and (hash(json.dumps(job, sort_keys=True, default=str)) % 16) != 0:
+        eng.xcheck_every = 0          # quick tier: the first verification query of about one job in 16
+    res = dict(job=job, findings=[], samples=[], functions=[], validated=0, mismatches=[], reached=0, reach_unknown=0, proved=0,
                error=None)
     rng = random.Random(seed * 7919 + hash(json.dumps(job, sort_keys=True, default=str)) % 100003)
     state = dict(first=True)
@@ -296,6 +308,7 @@ def run_job(args):
                 elif cres is not None and cres.get('error'):
                     res['mismatches'].append(dict(inputs=jsonable(inputs), diff=[cres['error']]))
         res['reached'] += ctx.reached
+        res['reach_unknown'] += ctx.reach_unknown
         res['proved'] += ctx.proved
         for f in ctx.findings:
             f = dict(f)
@@ -321,6 +334,7 @@ def run_job(args):
     except Exception as e:
         res['error'] = '%s: %s\n%s' % (type(e).__name__, e, traceback.format_exc())
     res['stats'] = eng.stats
+    res['xc_disagreements'] = eng.xcheck_disagreements[:3]
     res['exhaustive'] = eng.exhaustive
     res['pending_left'] = eng.pending_left
     res['functions'] = sorted(funcs)
@@ -404,6 +418,14 @@ def main(check, argv=None):
     return finish(check, tier, seed, jobs, results, known, time.time() - t0, budget)
 
 
+def _cvc5_version():
+    try:
+        import cvc5
+        return getattr(cvc5, '__version__', '')
+    except Exception:
+        return '(not available)'
+
+
 def finish(check, tier, seed, jobs, results, known, wall, budget):
     tot = {}
     for r in results:
@@ -417,7 +439,7 @@ def finish(check, tier, seed, jobs, results, known, wall, budget):
     spurious = [f for f in findings if f['kind'] == 'spurious']
     unsupported = [f for f in findings if f['kind'] == 'unsupported']
     mism = [dict(m, job=r['job']) for r in results for m in r['mismatches']]
-    vacuous = [r['job'] for r in results if r['reached'] == 0 and not r.get('error') and r['stats']['paths'] > 0
+    vacuous = [r['job'] for r in results if r['reached'] == 0 and r.get('reach_unknown', 0) == 0 and not r.get('error') and r['stats']['paths'] > 0
                and not getattr(check, 'no_reach', False)]
     nonexh = [r for r in results if not r['exhaustive']]
     funcs = sorted({f for r in results for f in r['functions']})
@@ -482,12 +504,16 @@ def finish(check, tier, seed, jobs, results, known, wall, budget):
         paths_inconclusive=len({json.dumps(f['job'], default=str) + f['what'] for f in unknown + spurious + unsupported}),
         inconclusive=dict(solver_unknown=len(unknown), candidate_not_reproduced=len(spurious), unsupported=len(unsupported),
                           examples=jsonable((unknown + spurious + unsupported)[:6])),
-        reachability_witnesses=sum(r['reached'] for r in results), vacuous_jobs=jsonable(vacuous[:5]),
+        reachability_witnesses=sum(r['reached'] for r in results), reachability_unknown=sum(r.get('reach_unknown', 0) for r in results), vacuous_jobs=jsonable(vacuous[:5]),
         validation_mismatches=len(mism), validation_mismatch_examples=jsonable(mism[:3]),
         known_findings_seen=sorted(seen_known), violations_distinct=len(groups),
         engine='symx (z3 %s) on the real code from %s' % (z3.get_version_string(), REPO),
         budget_s=budget,
     )
+    xdis = [dict(d, job=r['job']) for r in results for d in r.get('xc_disagreements', [])]
+    coverage['cvc5_crosscheck'] = dict(queries_rechecked=tot.get('xc_asked', 0), agree=tot.get('xc_agree', 0), disagree=tot.get('xc_disagree', 0),
+                                       cvc5_unknown=tot.get('xc_unknown', 0), examples=jsonable(xdis[:3]),
+                                       note='a sample of the final verification queries (every k-th per job, exported by z3 as SMT-LIB) is re-decided by cvc5 %s; a sat/unsat disagreement is a harness error' % _cvc5_version())
     extra = getattr(check, 'extra_evidence', None)
     if extra:
         coverage.update(jsonable(extra))
@@ -509,6 +535,9 @@ def finish(check, tier, seed, jobs, results, known, wall, budget):
     for l in lines:
         print(l)
     sys.stdout.flush()
+    if xdis:
+        print('HARNESS-ERROR z3 and cvc5 disagree on %d verification queries: %s' % (len(xdis), json.dumps(jsonable(xdis[:2]))[:600]), file=sys.stderr)
+        return EXIT_HARNESS
     if errors:
         for r in errors[:3]:
             print('HARNESS-ERROR job=%s\n%s' % (json.dumps(r['job'], default=str)[:200], r['error']), file=sys.stderr)
